@@ -10,6 +10,8 @@ pub struct Parts {
     pub sig: Vec<(u32, Val)>,
     pub main: Vec<(u32, Val)>,
     pub payload: Vec<u8>,
+    /// index order of (signature, main) header: see RawHeader::reorder
+    pub order: (u8, u8),
 }
 
 fn records(h: &RawHeader, region: u32) -> Option<Vec<(u32, Val)>> {
@@ -30,6 +32,7 @@ pub fn split(x: &[u8]) -> Option<Parts> {
         sig: records(&sig, 62)?,
         main: records(&hdr, 63)?,
         payload: x[l.payload_off..].to_vec(),
+        order: (0, 0),
     })
 }
 
@@ -46,10 +49,14 @@ pub fn get(recs: &[(u32, Val)], tag: u32) -> Option<&Val> {
 
 impl Parts {
     pub fn main_header(&self) -> RawHeader {
-        RawHeader::layout_region(63, &self.main)
+        let mut h = RawHeader::layout_region(63, &self.main);
+        h.reorder(self.order.1);
+        h
     }
     pub fn sig_header(&self) -> RawHeader {
-        RawHeader::layout_region(62, &self.sig)
+        let mut h = RawHeader::layout_region(62, &self.sig);
+        h.reorder(self.order.0);
+        h
     }
     pub fn join(&self) -> (Vec<u8>, Layout) {
         assemble(&self.lead, &self.sig_header(), 0, &self.main_header(), &self.payload)
@@ -157,5 +164,6 @@ pub fn hand_encoded(payload: &[u8]) -> Parts {
             (1009, Val::Int32(vec![0])),
         ],
         payload: payload.to_vec(),
+        order: (0, 0),
     }
 }
